@@ -193,7 +193,24 @@ struct Canon<GNATN>
 {
     static std::string get(GNATN &g)
     {
-        return gnatCanon(g);
+        // the non-thread-safe variant keeps its result heap and node queue as MEMBERS (scratch that must be empty between operations):
+        // they feed the next query, so they are part of the state (two histories that differ there do not have the same futures)
+        std::string s = gnatCanon(g);
+        Relabel rl;
+        if (g.tree_)
+        {
+            std::string dummy;
+            dumpNode<GNATN>(g.tree_, dummy, rl);  // same labels as in the tree dump
+        }
+        s += " nq[";
+        for (auto &e : g.nearQueue_.c)
+        {
+            char b[48];
+            snprintf(b, sizeof b, "%g:", e.first);
+            s += b + (e.second ? rl(*e.second) : std::string("null")) + ";";
+        }
+        s += "] dq" + std::to_string(g.nodeQueue_.c.size());
+        return s;
     }
 };
 template <>
@@ -612,19 +629,22 @@ static bool replayT(const Config &cfg, const vf::JV &v)
     Sys<NN> s;
     s.cfg = cfg;
     s.M = metric(cfg.metricName, cfg.thorough);
-    auto o = s.make();
-    std::vector<std::string> hist;
-    bool failed = false;
+    // exactly as the search does it: every prefix on a FRESH object, all queries after its last op only (queries are not pure for
+    // every structure: the non-thread-safe GNAT keeps scratch state that a query consumes)
+    std::vector<std::string> all;
     for (auto &op : v["ops"].a)
+        all.push_back(op.s);
+    bool failed = false;
+    for (size_t len = 1; len <= all.size() && !failed; ++len)
     {
-        s.apply(*o, op.s);
-        hist.push_back(op.s);
+        auto o = s.make();
+        std::vector<std::string> hist(all.begin(), all.begin() + len);
+        for (auto &op : hist)
+            s.apply(*o, op);
         s.check(*o, hist, [&](const std::string &k, const std::string &w) {
             printf("after %zu ops: %s: %s\n", hist.size(), k.c_str(), w.c_str());
             failed = true;
         });
-        if (failed)
-            break;
     }
     return failed;
 }
